@@ -246,7 +246,7 @@ func runC15(t *testing.T, rng *rand.Rand, rec *sim.Rec, tier string, caseNo int)
 	k := Knobs{
 		Clients: [2]int{1, 3}, TCPClients: [2]int{0, 2}, Peers: [2]int{2, 4}, Steps: [2]int{3, 12}, V6: 15, Deny: 10,
 		TimeoutSets: [][3]time.Duration{{0, 0, 0}, {2 * time.Minute, 3 * time.Minute, 10 * time.Minute}, {7 * time.Minute, 4 * time.Minute, 6 * time.Minute}},
-		Lifetimes:   []int64{-1, -1, 600, 1800},
+		Lifetimes:   []int64{-1, -1, 600, 1800, 0},
 		W:           map[string]int{"allocate": 4, "perm": 5, "chan": 5, "data": 3, "time": 1, "refresh": 1},
 		TCPAllocPct: 30, SecondListener: 35,
 	}
